@@ -94,10 +94,15 @@ def containsSub (pat : Chars) : Chars → Bool
   | [] => pat.isEmpty
   | c :: cs => pat.isPrefixOf (c :: cs) || containsSub pat cs
 
-/-- `file_path.to_string_lossy().contains("site-packages")` (`prefix` = absolute location of the
-    case root, `[]` in ordinary cases). -/
-def pathMentionsSitePackages (pfx : Path) (f : Path) : Bool :=
-  (pfx ++ f).any (fun comp => containsSub "site-packages".toList comp.toList)
+/-- `is_in_site_packages`: some path component is `site-packages` — below the workspace root for
+    a file of the workspace (since the repair of the substring test), in the whole absolute path
+    otherwise (`pfx` = absolute location of the case root, `[]` in ordinary cases). -/
+def inSitePackages (pfx : Path) (st : Index) (f : Path) : Bool :=
+  match st.workspaceRoot with
+  | some ws =>
+    if pathStartsWith f ws then (f.drop ws.length).any (· == "site-packages")
+    else (pfx ++ f).any (· == "site-packages")
+  | none => (pfx ++ f).any (· == "site-packages")
 
 /-! ### analysis -/
 
@@ -131,7 +136,7 @@ def scanStep (f : Path) (b : BodyScan) (st : Index) (r : NameRef) : Index :=
     `scan_function_body_for_undeclared_fixtures`). -/
 def applyEvent (pfx : Path) (f : Path) (st : Index) : Event → Index
   | .defn d =>
-    let d := { d with thirdParty := pathMentionsSitePackages pfx f || st.editableThirdParty f,
+    let d := { d with thirdParty := inSitePackages pfx st f || st.editableThirdParty f,
                       plugin := st.pluginFiles.contains f }
     { st with defs := st.defs ++ [d], fileDefs := addName st.fileDefs f d.name,
               version := st.version + 1 }
